@@ -43,7 +43,28 @@ class C16(Scenario):
     level_note = "trusts GIL atomicity of deque ops and that sim Lock/Condition mirror threading semantics"
     technique = "deterministic simulation: seeded PCT/random scheduler with byte-code pre-emption over real threads, history oracle + sequential reference model"
 
+    # exhaustive part: every put/get sequence of length <= 6 over a two-item alphabet (3^1 + ... + 3^6 = 1092 programs),
+    # for each of three alphabets whose two members differ in class only, in one field only, in the watch only
+    ENUM_ALPHABETS = [(0, 1), (0, 3), (0, 4)]
+    ENUM_PER_ALPHABET = sum(3 ** n for n in range(1, 7))
+
+    def gen_enum(self, idx):
+        a = self.ENUM_ALPHABETS[idx // self.ENUM_PER_ALPHABET]
+        k = idx % self.ENUM_PER_ALPHABET
+        n = 1
+        while k >= 3 ** n:
+            k -= 3 ** n
+            n += 1
+        ops = []
+        for _ in range(n):
+            d = k % 3
+            k //= 3
+            ops.append(["get"] if d == 2 else ["put", a[d]])
+        return {"mode": "seq", "ops": ops, "enumerated": True, "sched": {"policy": "sticky", "p_switch": 0.3, "line": False, "step_cap": 50_000, "horizon": 600}}
+
     def gen_case(self, seed, tier, idx):
+        if idx < len(self.ENUM_ALPHABETS) * self.ENUM_PER_ALPHABET:
+            return self.gen_enum(idx)
         rng = random.Random(f"{seed}:ops")
         cfg = random.Random(f"{seed}:cfg")
         k = rng.choice([2, 2, 3, 4])
@@ -204,7 +225,7 @@ class C16(Scenario):
                 if u["kind"] != "actor":
                     v.append(Violation("uncaught", f"C16:uncaught:{u['exc']}", str(u)))
             v.extend(self.oracle(case, hist))
-            return v, {"sample": {"timeline": [(e[0], e[3], e[1], keyname(e[2])) for e in hist["tl"]][:20], "seqlog": hist.get("seqlog")}}
+            return v, {"extra": {"enumerated_sequential_programs": 1 if case.get("enumerated") else 0}, "sample": {"timeline": [(e[0], e[3], e[1], keyname(e[2])) for e in hist["tl"]][:20], "seqlog": hist.get("seqlog")}}
 
         return self.simulate(case, sched_seed, trace, install, main, finish)
 
